@@ -19,7 +19,7 @@ import (
 func TestVerifC09_oprf_keys(t *testing.T) {
 	r := verifmc.Start(t, "C09", "oprf_keys")
 	defer r.Finish()
-	r.Rule("per suite the compressed-format alphabet of the group units (flips of 2 quick / 10 thorough bases) and the ristretto255 alphabet, plus public keys derived by the library from 3 seeds; " +
+	r.Rule("per suite the compressed-format alphabet of the group units (flips of 1 quick / 10 thorough bases) and the ristretto255 alphabet, plus public keys derived by the library from 3 seeds; " +
 		"the element inside the accepted key is read in-package and re-marshalled uncompressed for comparison with the reference's point; distinct = distinct (suite, input bytes)")
 	type suiteT struct {
 		s     Suite
@@ -29,9 +29,9 @@ func TestVerifC09_oprf_keys(t *testing.T) {
 		st := st
 		var cases []c09ref.Case
 		if st.curve != nil {
-			cases = c09ref.SEC1Cases(st.curve, 1, c09ref.SEC1Options{FlipBases: r.Pick(2, 10)})
+			cases = c09ref.SEC1Cases(st.curve, 1, c09ref.SEC1Options{FlipBases: r.Pick(1, 10)})
 		} else {
-			cases = c09ref.RistrettoCases(c09ref.EdOptions{FlipBases: r.Pick(2, 11)})
+			cases = c09ref.RistrettoCases(c09ref.EdOptions{FlipBases: r.Pick(1, 11)})
 		}
 		for i, seed := range verifmc.SeedsN(32, r.Seed(), 3) {
 			sk, err := DeriveKey(st.s, VerifiableMode, seed, []byte("verif-c09"))
@@ -78,9 +78,9 @@ func TestVerifC09_oprf_keys(t *testing.T) {
 				return res
 			}})
 	}
-	r.RequireCounter("in:flip", 2*8*(33+49+67+32)-16)
+	r.RequireCounter("in:flip", 8*(33+49+67+32)-16)
 	r.RequireCounter("in:valid-lib", 12)
-	r.RequireCounter("in:alias", 18)
+	r.RequireCounter("in:alias", 2)
 	r.RequireCounter("in:rfc-invalid", 25)
 	r.RequireCounter("accepted", 100)
 }
